@@ -203,6 +203,100 @@ def relation_reload(fresh, used):
     if [[bits(x + 0.0) for x in v] for v in fresh["coords"]] != [[bits(x + 0.0) for x in v] for v in used["coords"]]: return "coordinates differ"
     return None
 
+# ---------------------------------------------------------------- file names (format selection)
+REG = {"tri": 0, "off": 1, "bnd": 2, "mesh": 3, "vtk": 4, "gii": 5}
+def py_format(name):
+    base = name.rsplit("/", 1)[-1]; k = base.rfind(".")
+    return REG.get(base[k + 1:].lower()) if k > 0 else None
+def case_name(flags, name, vs, ts):
+    f = py_format(name)
+    return "c15 " + " ".join(map(str, [8, flags, len(name)] + [ord(c) for c in name] + mesh_wire(vs, ts) + table(allcoords(vs), rnd_of(f if f in (0, 1, 2, 3) else 0))))
+def name_of_case(w): return "".join(chr(c) for c in w[3:3 + w[2]])
+def gen_name(rng):
+    d = rng.choice(["", "", "d.ir/", "sub.x/y.z/", "UP/"]); stem = rng.choice(["HEAD", "x", "a.b", "scalp.1", "m", "Cortex.v2.final"])
+    c = rng.random()
+    if c < 0.75:
+        e = rng.choice(["tri", "off", "bnd", "mesh", "vtk"]); v = rng.choice([e, e.upper(), e.capitalize(), e[0] + e[1:].upper(), e.upper()])
+        return d + stem + "." + v
+    return d + rng.choice([stem + ".gii", stem + ".GII", stem + ".trx", stem + ".", stem, ".tri", stem + ".tri.bak", stem + ".TRI.BAK", stem + ".msh"])
+
+# ---------------------------------------------------------------- meshes of a multi-mesh Geometry
+def write_geometry(dirpath, rng, kind):
+    """writes <dir>/model.geom (+ model.cond, mesh files); returns a description"""
+    os.makedirs(dirpath, exist_ok=True)
+    if kind == "Head1":
+        src = os.path.join(ombuild.REPO, "data", "Head1")
+        import shutil
+        for f in ("cortex.1.tri", "skull.1.tri", "scalp.1.tri"): shutil.copy(os.path.join(src, f), dirpath)
+        shutil.copy(os.path.join(src, "Head1.geom"), os.path.join(dirpath, "model.geom"))
+        shutil.copy(os.path.join(src, "Head1.cond"), os.path.join(dirpath, "model.cond"))
+        return "data/Head1"
+    m = models.random_model(rng, level=rng.choice([0, 1]), kinds=(kind,))
+    models.write_model(m, dirpath, fmt=rng.choice(["tri", "off", "bnd"]), stem="model")
+    return "%s model, meshes %s" % (kind, [n for n, _, _ in m["meshes"]])
+
+def state_case(fmt, before):
+    """op 10: the mesh as dumped (geometry positions), for the model"""
+    ng = before["ng"]; g = [(0.0, 0.0, 0.0)] * ng
+    g = list(g)
+    for k, c in zip(before["gidx"], before["coords"]): g[k] = c
+    w = [10, fmt, ng]
+    for v in g:
+        for c in v: w += hl(c)
+    w += [before["nv"]] + list(before["gidx"]) + [len(before["tris"])]
+    for t in before["tris"]: w += list(t)
+    w += table(allcoords(before["coords"]), rnd_of(fmt))
+    return "c15 " + " ".join(map(str, w))
+
+def geometry_pass(ck, hb, tooldir, rng, quick):
+    """saves every mesh of loaded multi-mesh geometries in every format, reloads, evaluates the before/after relation on the
+    implementation and compares the reloaded mesh with the model run on the dumped state.  Returns (count, meshes)"""
+    kinds = ["Head1", "nested", "split", "inclusions", "nonconductive", "nested"] if quick else ["Head1"] + ["nested", "split", "inclusions", "nonconductive"] * 6
+    gcases = []; desc = {}
+    for n, kind in enumerate(kinds):
+        gid = 700000 + n
+        desc[gid] = write_geometry(os.path.join(ck.workdir, "g_%d" % gid), rng, kind)
+        cond = 1 if (kind == "Head1" or n % 2 == 0) else 0
+        for fmt in range(4):
+            gcases.append("c15 9 %d %d %d %d" % (fmt, gid, cond, 1 if (kind in ("nested", "Head1") and n % 2 == 1) else 0))
+    rc, io, err = core.run_harness(hb, gcases, ck.workdir, env={"OM_TOOLS": tooldir})
+    mcases = []; expect = []; nmesh = 0
+    for c, i in zip(gcases, io):
+        w = [int(x) for x in c.split()[1:]]; fmt, gid = w[1], w[2]
+        what = "meshes of a Geometry (%s) saved as %s" % (desc[gid], FMT[fmt])
+        if i.startswith("CRASH") or i.split()[0] != "0":
+            ck.violation("geometry load: %s" % desc[gid], "the generated geometry could not be loaded by the implementation (%s): %s" % (i[:40], what),
+                         dict(kind="geometry", cases=[c]), found_input=False)
+            continue
+        o = [int(x) for x in i.split()]; k = o[1]; p = 2
+        for mi in range(k):
+            before, p = parse_dump(o, p); st = o[p]; p += 1; after = None
+            if st == 0: after, p = parse_dump(o, p)
+            nmesh += 1
+            r = relation_roundtrip(fmt, before, after)
+            if r and len(ck.violations) < 8:
+                ck.violation("mesh %d of %s saved as %s" % (mi, desc[gid], FMT[fmt]),
+                             "mesh %d of a multi-mesh Geometry is not the same after save+load (%s): %s; first triangle (geometry positions) %s, vertices() starts at geometry position %s" % (mi, r, what, before["tris"][:1], before["gidx"][:1]),
+                             dict(kind="property-relation", cases=[c], geometry=desc[gid], mesh=mi, replay_cmd="./check C15 (regenerates the geometry from the seed)"))
+            mcases.append(state_case(fmt, before)); expect.append((c, mi, st, after, what))
+    mo = core.run_model(mcases) if mcases else []
+    for mc, m, (c, mi, st, after, what) in zip(mcases, mo, expect):
+        mw = [int(x) for x in m.split()]
+        if (mw[0] != st or (st == 0 and mw[1:] != dump_ints(after))) and len(ck.violations) < 10:
+            ck.violation("mesh %d: model and implementation differ: %s" % (mi, what),
+                         "saving mesh %d and loading it back does not give what the model proved in Properties_C15.v gives (%s): model %s | implementation status %d" % (mi, what, m[:120], st),
+                         dict(kind="correspondence", cases=[mc], geometry_case=[c], replay_cmd="./check C15 --replay <this file>"))
+    return len(gcases), nmesh
+
+def dump_ints(d):
+    w = [d["nv"]]
+    for g, v in zip(d["gidx"], d["coords"]):
+        w.append(g)
+        for c in v: w += hl(c)
+    w += [d["ng"], len(d["tris"])]
+    for t in d["tris"]: w += list(t)
+    return w
+
 def second_mesh(rng, vs, ts):
     """a mesh sharing some vertices (exact coordinates) with (vs, ts): shifted copy glued along coincident points, or a random one"""
     c = rng.random()
@@ -343,7 +437,7 @@ def witnesses():
     w.append(("bowtie", case_roundtrip(1, 0, bt, [(0, 1, 2), (2, 3, 4), (3, 4, 5)])))
     return w
 
-OPN = {1: "roundtrip", 2: "writer", 3: "merge", 4: "om_mesh_convert", 5: "om_mesh_concat", 6: "om_mesh_convert chain", 7: "load into fresh and used Mesh"}
+OPN = {1: "roundtrip", 2: "writer", 3: "merge", 4: "om_mesh_convert", 5: "om_mesh_concat", 6: "om_mesh_convert chain", 7: "load into fresh and used Mesh", 8: "file name", 10: "mesh state"}
 
 def describe(line):
     w = parse_case(line); op = w[0]
@@ -354,6 +448,8 @@ def describe(line):
     if op == 4: return "om_mesh_convert %s->%s" % (FMT[w[1]], FMT[w[2]]), read_mesh(w, 5)[:2]
     if op == 5:
         vs, ts, p = read_mesh(w, 4); return "om_mesh_concat %s" % FMT[w[1]], (vs, ts) + read_mesh(w, p)[:2]
+    if op == 8: return "save/load as '%s'" % name_of_case(w), read_mesh(w, 3 + w[2])[:2]
+    if op == 10: return "mesh state saved as %s" % FMT[w[1]], ()
     if op == 7:
         vs, ts, p = read_mesh(w, 4); return "load %s into fresh/used Mesh" % FMT[w[1]], (vs, ts) + read_mesh(w, p)[:2]
     if op == 6: return "om_mesh_convert chain %s->%s->%s" % (FMT[w[1]], FMT[w[2]], FMT[w[3]]), read_mesh(w, 6)[:2]
@@ -369,7 +465,7 @@ def short(line):
 def rebuild(line, ts_new, which=0):
     """same case with the triangle list of mesh `which` replaced (for shrinking)"""
     w = parse_case(line); op = w[0]
-    hdr = {1: 3, 2: 4, 3: 2, 4: 5, 5: 4, 6: 6, 7: 4}[op]
+    hdr = {1: 3, 2: 4, 3: 2, 4: 5, 5: 4, 6: 6, 7: 4, 8: 3 + w[2]}[op]
     vs, ts, p = read_mesh(w, hdr)
     if op in (3, 5, 7):
         vs2, ts2, p2 = read_mesh(w, p)
@@ -489,6 +585,17 @@ def main(replay=None):
             if n % 3 == 0: v1, t1 = v2, t2                      # the same file twice
             elif n % 3 == 1 and len(v1) > 2: v1[0] = v2[0]; v1[-1] = v2[-1]   # earlier content shares points with the file
             cases.append(case_reload(n % 4, 1, len(cases), (v1, t1), (v2, t2))); labels.append("reload:seam")
+        # file names: suffix in any case, several dots, directories with dots, unknown suffixes
+        fixed = ["HEAD.TRI", "x.Mesh", "SCALP.BND", "a.b.tri", "d.ir/x.off", "d.tri/x", ".tri", "m.Off", "UP/Y.VTK", "q.gii", "noext"]
+        for n in range(40 if quick else 300):
+            _, vs, ts = gen_mesh(rng, allow_bad=False)
+            name = fixed[n] if n < len(fixed) else gen_name(rng)
+            cases.append(case_name(1, name, vs, ts)); labels.append("name:%s" % ("known" if py_format(name) is not None else "unknown-suffix"))
+        # programmatic meshes saved before any update (Vertex::index() unset), all formats
+        for n in range(6 if quick else 40):
+            _, vs, ts = gen_mesh(rng, allow_bad=False)
+            for fmt in range(4):
+                cases.append(case_roundtrip(fmt, 2, vs, ts)); labels.append("roundtrip:no-update")
         # tool-level round trips through om_mesh_convert: closed and open surfaces, both windings, all format pairs over a run
         chains = [(0, 1, 0), (1, 0, 1), (0, 2, 0), (2, 3, 2), (3, 0, 3), (1, 3, 1), (0, 3, 1), (2, 1, 0), (3, 2, 0), (1, 2, 3)]
         shapes = [("closed", lambda: models.icosphere(rng.choice([0, 1]))), ("closed", lambda: models.octasphere(1)),
@@ -512,6 +619,12 @@ def main(replay=None):
         if len(c.split()) > 40: nontriv.add(c)
         if j: mism.append((c, lab, m, i, j))
         # the property's own relation, evaluated on the implementation
+        if op == 8 and not i.startswith("CRASH"):
+            o = [int(x) for x in i.split()]; f8 = py_format(name_of_case(parse_case(c)))
+            if o[0] == 0 and f8 in (0, 1, 2, 3):
+                before, p = parse_dump(o, 1); after = parse_dump(o, p + 1)[0] if o[p] == 0 else None
+                r = relation_roundtrip(f8, before, after)
+                if r: relfail.append((c, lab, f8, r, False))
         if op in (1, 6) and not i.startswith("CRASH"):
             o = [int(x) for x in i.split()]
             if o[0] == 0:
@@ -522,6 +635,9 @@ def main(replay=None):
                 unused = set(before["gidx"]) - {a for t in before["tris"] for a in t}
                 r = relation_roundtrip(fmt, before, after)
                 if r: relfail.append((c, lab, fmt, r, bool(unused)))
+    ngeo = (0, 0)
+    if not replay:
+        ngeo = geometry_pass(ck, hb, tooldir, rng, quick)
     # loading into a used object (op 7): fresh and reused loads must describe the same mesh
     for c, lab, m, i in zip(cases, labels, mo, io):
         if c.split()[1] != "7" or i.startswith("CRASH"): continue
@@ -572,7 +688,7 @@ def main(replay=None):
                        "x {tri,off,bnd,mesh} round trips + writer streams (incl. vtk) + merge + om_mesh_convert/om_mesh_concat; non-trivial = more than 40 integers; distinct = distinct case lines",
                   samples=[short(c) for c in cases[len(cases) // 2:len(cases) // 2 + 3]], op_distribution=dist, feature_distribution=tagdist,
                   error_outcomes=errpaths, correspondence_mismatches=len(mism), property_relation_failures=len(relfail),
-                  writer_files_compared=files_cmp, traces_validated_against_impl=len(cases))
+                  writer_files_compared=files_cmp, geometry_saves=ngeo[0], geometry_meshes_roundtripped=ngeo[1], traces_validated_against_impl=len(cases))
     ck.cov["trusted_base"] += ["hand-written Gallina model coq/Geom/MeshCodec.v tied by exact differential runs (harness/h_c15.cpp vs extracted extract/omm) and by token/byte comparison of the written files",
                                "extraction: ExtrOcamlBasic only; OCaml driver extract/main.ml",
                                "Python: rnd images float('%.6g' % x) and float32 via struct; tokenisation of the written files by whitespace"]
@@ -587,6 +703,11 @@ def main(replay=None):
 def _rel_fails(c, i):
     if i.startswith("CRASH"): return False
     cw = c.split()
+    if cw[1] == "8":
+        o = [int(x) for x in i.split()]
+        if o[0] != 0: return False
+        before, p = parse_dump(o, 1); after = parse_dump(o, p + 1)[0] if o[p] == 0 else None
+        return relation_roundtrip(py_format(name_of_case(parse_case(c))), before, after) is not None
     if cw[1] == "6":
         o = [int(x) for x in i.split()]
         if o[0] != 0: return False
